@@ -191,7 +191,7 @@ func main() {
 		ho.Observes = rr.Observes
 		ho.Bounds = map[string]any{"max_symbolic_decisions_per_path": cfg.MaxDecisions, "max_instructions_per_path": cfg.MaxSteps,
 			"max_call_depth": cfg.MaxDepth, "max_values_per_concretization": cfg.MaxConcretize, "max_paths": cfg.MaxPaths,
-			"preemption_bound": cfg.Preemptions, "solver_timeout_ms": cfg.SolverTimeoutMS, "map_order_fork": cfg.MapOrderFork}
+			"preemption_bound": cfg.Preemptions, "strict_sched_bound_counts_every_non_default_choice": cfg.StrictSchedBound, "solver_timeout_ms": cfg.SolverTimeoutMS, "map_order_fork": cfg.MapOrderFork}
 		ro.Harnesses = append(ro.Harnesses, ho)
 		fmt.Fprintf(os.Stderr, "gosym: %s: %d paths %v, %d obligations (%d unsat, %d sat, %d unknown, %d concrete), %d violations, %.1fs\n",
 			fn, rr.Paths, rr.PathEnds, rr.Obligations, rr.ObUnsat, rr.ObSat, rr.ObUnknown, rr.ObConcrete, len(rr.Violations), rr.Wall.Seconds())
